@@ -126,7 +126,31 @@ fn block_nested(path: &[u32]) -> bool {
 
 /// every single mutation of the tree: (description path, mutated tree)
 pub fn wire_mutations(m: &[(u32, Wire)], prefix: &str, out: &mut Vec<(String, Vec<(u32, Wire)>)>, rebuild: &dyn Fn(Vec<(u32, Wire)>) -> Vec<(u32, Wire)>) {
-    const IDS: [u64; 12] = [0, 1, 27, 28, 1023, 1024, 1025, 1030, 0x7fff_ffff, 0xffff_ffff, 0x1_0000_0000, u64::MAX];
+    // ids / tags / versions around every table boundary, the integer extremes, and the boundaries of what a
+    // date printer can format (years -9999, -1 / 0, 9999 / 10000 as unsigned reinterpretations)
+    const IDS: [u64; 21] = [
+        0,
+        1,
+        27,
+        28,
+        1023,
+        1024,
+        1025,
+        1030,
+        0x7fff_ffff,
+        0xffff_ffff,
+        0x1_0000_0000,
+        u64::MAX,
+        i64::MAX as u64,
+        i64::MIN as u64,
+        253402300799,
+        253402300800,
+        (-62167219200i64) as u64,
+        (-62167219201i64) as u64,
+        (-377705116800i64) as u64,
+        (-377705116801i64) as u64,
+        (-2i64) as u64,
+    ];
     for (idx, (f, w)) in m.iter().enumerate() {
         let here = format!("{prefix}/{f}");
         // delete, duplicate
@@ -523,6 +547,83 @@ pub fn run(tier: Tier) {
             }
         });
     }
+    // (A2) every operator applied to every pair (unary: every single one) of edge operands, as a check of an
+    // attenuation block built directly in protobuf, signed, loaded, printed and authorized
+    let op_cases = AtomicUsize::new(0);
+    {
+        use schema::term_v2::Content as C;
+        let t = |c: C| schema::TermV2 { content: Some(c) };
+        let int = |i: i64| t(C::Integer(i));
+        let operands: Vec<(&str, schema::TermV2)> = vec![
+            ("i64::MIN", int(i64::MIN)),
+            ("-1", int(-1)),
+            ("0", int(0)),
+            ("1", int(1)),
+            ("2", int(2)),
+            ("i64::MAX", int(i64::MAX)),
+            ("str", t(C::String(1024))),
+            ("str-default-symbol", t(C::String(0))),
+            ("date-0", t(C::Date(0))),
+            ("date-max", t(C::Date(u64::MAX))),
+            ("date-year--1", t(C::Date((-62167219201i64) as u64))),
+            ("bytes-empty", t(C::Bytes(vec![]))),
+            ("bytes", t(C::Bytes(vec![0, 255]))),
+            ("true", t(C::Bool(true))),
+            ("false", t(C::Bool(false))),
+            ("null", t(C::Null(schema::Empty {}))),
+            ("set-empty", t(C::Set(schema::TermSet { set: vec![] }))),
+            ("set-ints", t(C::Set(schema::TermSet { set: vec![int(i64::MIN), int(-1)] }))),
+            ("array-empty", t(C::Array(schema::Array { array: vec![] }))),
+            ("array-min", t(C::Array(schema::Array { array: vec![int(i64::MIN), int(-1)] }))),
+            ("map-empty", t(C::Map(schema::Map { entries: vec![] }))),
+            ("map", t(C::Map(schema::Map { entries: vec![schema::MapEntry { key: schema::MapKey { content: Some(schema::map_key::Content::Integer(i64::MIN)) }, value: int(-1) }] }))),
+        ];
+        let value = |x: &schema::TermV2| schema::Op { content: Some(schema::op::Content::Value(x.clone())) };
+        let mk_block = |ops: Vec<schema::Op>| {
+            schema::Block {
+                symbols: vec!["opsym".into(), "f".into()],
+                context: None,
+                version: Some(6),
+                facts_v2: vec![],
+                rules_v2: vec![],
+                checks_v2: vec![schema::CheckV2 { queries: vec![schema::RuleV2 { head: schema::PredicateV2 { name: 1024, terms: vec![] }, body: vec![], expressions: vec![schema::ExpressionV2 { ops }], scope: vec![] }], kind: None }],
+                scope: vec![],
+                public_keys: vec![],
+            }
+            .encode_to_vec()
+        };
+        let mut blocks: Vec<(String, Vec<u8>)> = vec![];
+        for kind in 0..=28i32 {
+            let ffi = if kind == 28 { Some(1025u64) } else { None };
+            for (an, a) in &operands {
+                for (bn, b) in &operands {
+                    let second = if matches!(kind, 23..=26) {
+                        // lazy operators and all / any take a closure; the closure body returns the second operand
+                        // (all / any get a one-parameter closure comparing with it)
+                        let params = if kind >= 25 { vec![7u32] } else { vec![] };
+                        let body = if kind >= 25 { vec![schema::Op { content: Some(schema::op::Content::Value(t(C::Variable(7)))) }, value(b), schema::Op { content: Some(schema::op::Content::Binary(schema::OpBinary { kind: 12, ffi_name: None })) }] } else { vec![value(b)] };
+                        schema::Op { content: Some(schema::op::Content::Closure(schema::OpClosure { params, ops: body })) }
+                    } else {
+                        value(b)
+                    };
+                    blocks.push((format!("binary-{kind}({an}, {bn})"), mk_block(vec![value(a), second, schema::Op { content: Some(schema::op::Content::Binary(schema::OpBinary { kind, ffi_name: ffi })) }])));
+                }
+            }
+        }
+        for kind in 0..=4i32 {
+            let ffi = if kind == 4 { Some(1025u64) } else { None };
+            for (an, a) in &operands {
+                blocks.push((format!("unary-{kind}({an})"), mk_block(vec![value(a), schema::Op { content: Some(schema::op::Content::Unary(schema::OpUnary { kind, ffi_name: ffi })) }])));
+                // an arithmetic result fed to the unary, and the unary's result fed to arithmetic
+                blocks.push((format!("unary-{kind}({an} - 1)"), mk_block(vec![value(a), value(&int(1)), schema::Op { content: Some(schema::op::Content::Binary(schema::OpBinary { kind: 10, ffi_name: None })) }, schema::Op { content: Some(schema::op::Content::Unary(schema::OpUnary { kind, ffi_name: ffi })) }])));
+            }
+        }
+        blocks.par_iter().for_each(|(desc, payload)| {
+            op_cases.fetch_add(1, Ordering::Relaxed);
+            let bytes = sign_as("block", payload.clone());
+            load_and_sweep(&ctx, "signed-block/operator-on-edge-operands", desc, &bytes, &counters);
+        });
+    }
     // deep nesting built directly in protobuf (beyond what the builders produce)
     let mut nest_cases = 0;
     for depth in [1usize, 16, 32, 49, 50, 63, 64, 99, 100, 101, 200, 1000] {
@@ -756,6 +857,7 @@ pub fn run(tier: Tier) {
         "evaluations": n,
         "distinct_nontrivial": counters.1.load(Ordering::Relaxed),
         "seed_blocks": seeds.len(),
+        "operator_x_edge_operand_blocks": op_cases.load(Ordering::Relaxed),
         "wire_mutations_of_seed_blocks": n_mut,
         "signed_tokens_loaded": loads,
         "of_which_accepted_and_fully_swept": counters.1.load(Ordering::Relaxed),
@@ -768,7 +870,7 @@ pub fn run(tier: Tier) {
         "scope_key_texts": key_texts,
         "exhaustive": true,
         "samples": samples_out.take(),
-        "rule": "(A) for each of 7 seed blocks (all term types, rules, checks of the three kinds, scopes, every operator class, closures, extern calls) every single mutation of the protobuf wire tree (each varint -> 12 adversarial ids / tags / versions, each length-delimited field -> empty / truncated / long / invalid UTF-8 / wrong wire type, each sub-message -> empty / unknown field, delete and duplicate of every field), re-signed by the harness as authority / block / third-party block, loaded through every loader, and every public operation run on the result (printing, all accessors with indices 0..n+2 and usize::MAX, seal, append, third-party request, authorizers under default-like and tight limits: run, authorize, query, dump, snapshot round trip, save); deep nesting (1..1000) of arrays / maps / sets / closures built directly in protobuf, in child processes; (B) every truncation and every byte substituted by 00/01/7f/80/ff of a 3-block token, of a signed payload, of third-party requests / responses, authorizer snapshots, builder snapshots and policies (+ wire mutations of those messages); (C) every string up to the length bound over a 21-symbol alphabet through every text entry point (plus 10 keyword prefixes), 8 nesting probes x {10..100000}, scope keys of every length. Oracle: no panic (catch_unwind), no abort (child exit status), no hang (wall cap 4-6 orders of magnitude above normal). distinct_nontrivial = adversarial signed tokens that were accepted and fully swept",
+        "rule": "(A2) every binary operator x every ordered pair, and every unary operator x every one, of 22 edge operands (integer extremes, strings, dates at the formatting boundaries, bytes, booleans, null, empty and extreme collections) as a check of a signed attenuation block, loaded, printed and authorized; (A) for each of 7 seed blocks (all term types, rules, checks of the three kinds, scopes, every operator class, closures, extern calls) every single mutation of the protobuf wire tree (each varint -> 21 adversarial values (ids / tags / versions around table boundaries, integer extremes, date formatting boundaries), each length-delimited field -> empty / truncated / long / invalid UTF-8 / wrong wire type, each sub-message -> empty / unknown field, delete and duplicate of every field), re-signed by the harness as authority / block / third-party block, loaded through every loader, and every public operation run on the result (printing, all accessors with indices 0..n+2 and usize::MAX, seal, append, third-party request, authorizers under default-like and tight limits: run, authorize, query, dump, snapshot round trip, save); deep nesting (1..1000) of arrays / maps / sets / closures built directly in protobuf, in child processes; (B) every truncation and every byte substituted by 00/01/7f/80/ff of a 3-block token, of a signed payload, of third-party requests / responses, authorizer snapshots, builder snapshots and policies (+ wire mutations of those messages); (C) every string up to the length bound over a 21-symbol alphabet through every text entry point (plus 10 keyword prefixes), 8 nesting probes x {10..100000}, scope keys of every length. Oracle: no panic (catch_unwind), no abort (child exit status), no hang (wall cap 4-6 orders of magnitude above normal). distinct_nontrivial = adversarial signed tokens that were accepted and fully swept",
     });
     ctx.finish("fault_enumeration", cov, vec!["inputs beyond these bounds and memory exhaustion by multi-megabyte inputs are not covered".into(), "hang cap: 20-1200 s per child for work that normally takes milliseconds to seconds".into()]);
 }
